@@ -57,7 +57,12 @@ func genDeadlines(seed uint64, tier, variant string) any {
 			case "retry":
 				c = CallSpec{Kind: "do", Cmds: []CmdSpec{{Argv: []string{"VTAG", uid(0), "[sb]"}, Flag: "ro"}}}
 			default:
-				if r.IntN(3) == 0 {
+				if r.IntN(8) == 0 {
+					// a command without a reply of its own (its confirmation is a push): issued through Do it makes the
+					// pipe start its background reader - also while another caller reads its reply synchronously under a
+					// connection deadline taken from its context
+					c = CallSpec{Kind: "unsub", Cmds: []CmdSpec{{Argv: []string{pick(r, "UNSUBSCRIBE", "PUNSUBSCRIBE"), "dl" + strconv.Itoa(r.IntN(2))}}}}
+				} else if r.IntN(3) == 0 {
 					c = CallSpec{Kind: "multi"}
 					for k, m := 0, 2+r.IntN(3); k < m; k++ {
 						c.Cmds = append(c.Cmds, CmdSpec{Argv: []string{"VTAG", uid(k), "[sb]"}})
